@@ -3,6 +3,7 @@ import PeptVerif.Model.Spans
 import PeptVerif.Spec.Spans
 import PeptVerif.Model.RegexLite
 import PeptVerif.Model.SeqDigest
+import PeptVerif.Spec.SeqDigest
 import PeptVerif.Generated.Proteases
 import PeptVerif.Spec.Proteases
 open Proto Spans
@@ -114,6 +115,17 @@ def step (line : String) : String :=
     match parseConfigs? configs, parseOptInt? lo, parseOptInt? hi with
     | some cfgs, some lo, some hi => showSpans (seqDigestText text.toList cfgs lo hi)
     | _, _, _ => "bad-op"
+  | ["seq_hyp", text, configs] =>
+    -- the decidable hypotheses of `sequential_eq_simultaneous_text`: plain configs, local rules, no stage shortcut, no union shortcut
+    match parseConfigs? configs with
+    | some cfgs =>
+      let t := text.toList
+      let b := fun (x : Bool) => if x then "1" else "0"
+      b (cfgs.all fun c => c.mc == 0 && !c.semi && c.complete) ++ " " ++
+      b (cfgs.all fun c => c.regex.all localRule) ++ " " ++
+      b (cfgs.all fun c => decide (StageShortcutFree t c)) ++ " " ++
+      b (decide (UnionShortcutFree t (cfgs.flatMap (fun c => c.regex))))
+    | none => "bad-op"
   | ["sim", text, pats, lo, hi] =>
     match (pats.splitOn "&").mapM parsePattern?, parseOptInt? lo, parseOptInt? hi with
     | some ps, some lo, some hi => showSpans (simDigestText text.toList ps lo hi)
